@@ -5,6 +5,7 @@ import (
 
 	"github.com/golang/protobuf/proto"
 	"github.com/openacid/errors"
+	"github.com/openacid/slim/index"
 	"github.com/openacid/slim/trie"
 )
 
@@ -466,6 +467,13 @@ func loadVia(st *trie.SlimTrie, entry string, buf []byte) (err error, pan string
 	if entry == "proto" {
 		return proto.Unmarshal(buf, st), ""
 	}
+	if entry == "index" {
+		// through index.SlimIndex, which embeds the trie by value (as
+		// NewSlimIndex builds it): whatever Unmarshal the index type offers
+		si := &index.SlimIndex{SlimTrie: *st}
+		defer func() { *st = si.SlimTrie }()
+		return si.Unmarshal(buf), ""
+	}
 	return st.Unmarshal(buf), ""
 }
 
@@ -542,7 +550,7 @@ func executeC07(scn *Scenario) *RunResult {
 	for fi, ft := range c.Faults {
 		entry := c.Entry
 		if entry == "alternate" {
-			entry = []string{"direct", "proto"}[fi%2]
+			entry = []string{"direct", "proto", "direct", "index"}[fi%4]
 		}
 		st, held := priorInstance(c.Prior, enc)
 		var durable []byte
